@@ -1,7 +1,7 @@
 """C16 — LV-DAG conversion round-trips; Evans simplification keeps the observed model.
 
 Correspondence: `to_latent_variable_dag` / `_latent_dag`, `from_latent_variable_dag`, the four rules and
-`simplify_latent_dag`, `evans_simplify` — real code vs the Lean model (Y0.Model.Latent), compared as sets
+`simplify_latent_dag`, `evans_simplify`, `taheri_design._get_result` — real code vs the Lean model (Y0.Model.Latent), compared as sets
 (nodes, edges, latent tags, reported widow / unidirectional / redundant sets; mixed graphs up to `__eq__`).
 
 Oracle (harness/oracles/latent_proj.py, written from the property statement): round trip returns an equal
@@ -29,8 +29,8 @@ SUF = "_prime"
 RULE = ("ops: roundtrip (ADMGs 0-8 nodes with isolated / bidirected-only nodes, up to 28 bidirected edges), simplify "
         "(random DAGs <=8 nodes with random latent tags + structured families: chains of latents, widow chains, latents "
         "with parents, with 0/1/many children, duplicate and nested child sets, isolated latents/observed), evans "
-        "(ADMG + extra latent set), from_lv (arbitrary tagged DAGs incl. untagged nodes), design (taheri _get_result, "
-        "oracle only); malformed stream: cyclic graphs, untagged nodes; name-collision stream (a node already called "
+        "(ADMG + extra latent set), from_lv (arbitrary tagged DAGs incl. untagged nodes), design (taheri _get_result: verdict and the four node/edge counts "
+        "compared with the model, verdict checked by ID on the independent projection); malformed stream: cyclic graphs, untagged nodes; name-collision stream (a node already called "
         "u_i / v_prime); rule-1 stream (hard_dag: R->U->L->C with U->A, three nested latents, latents whose children are "
         "partly latent, a latent parent above the head, `<latent>_prime` names already taken); u_i stream (hard_admg: "
         ">=2 bidirected edges and 1-3 observed nodes called u_j, j <= number of bidirected edges); small-scope slice: every DAG on <=3 (quick) / <=5 (thorough) nodes x every latent subset; thorough "
@@ -42,6 +42,7 @@ ASSUMPTIONS = [
     "theorem hypotheses: D.WF (distinct nodes/edges, edge endpoints are nodes, every node tagged: what building an nx.DiGraph gives), D.Acyclic, and for the names only `Function.Injective fresh` (u_i distinct) and `forall n, n < prime n` (a primed name is a longer string); bidirected self-loops are excluded from the round trip (not an ADMG)",
     "networkx topological_sort on a graph mutated during iteration is modelled as the order of the input graph (argued in Model/Latent.lean); correspondence compares results as sets, names invented for new latents are compared by their child sets",
     "in-place mutation: simplify_latent_dag mutates its argument and leaves it half-rewritten when it raises; the model is pure and returns the final graph (runtime clause, not claimed)",
+    "taheri_design._get_result: modelled up to the verdict (identify succeeded / Unidentifiable), the four counts and the returned ADMG; `canonicalize` of the returned estimand and the echoed `latents` / `observed` arguments are not modelled; the driver runs the ID model with the model of nx.topological_sort (the verdict does not depend on the order: id_verdict_equiv_congr)",
     "non-Variable nodes (_assert_variable_nodes TypeError), counterfactual graphs (raise_on_counterfactual) and non-default tag / prefix / start / suffix arguments are outside the model",
 ]
 EXHAUSTIVE = {"quick": False, "thorough": False}
@@ -771,7 +772,7 @@ def _run_design(case):
     try:
         r = _get_result(copy.deepcopy(dag), [_V(x) for x in lat], [_V(x) for x in obs_l], _V(case["cause"]), _V(case["effect"]))
         verdict = bool(r[0])
-        out = ["ok", str(verdict).lower()]
+        out = ["ok", str(verdict).lower(), int(r.pre_nodes), int(r.pre_edges), int(r.post_nodes), int(r.post_edges)]
     except _errs() as e:
         return ["err"], f"_get_result raised {type(e).__name__}: {str(e)[:80]}", {}
     obs, di, bi = O.projection(d["nodes"], [tuple(e) for e in d["edges"]], lat)
@@ -833,8 +834,6 @@ def _enc_lv(d, rank):
 
 def request(case):
     op = case["op"]
-    if op == "design":
-        return None
     uni, rank = table(case)
     primes = [[rank[n], rank[n + SUF]] for n in uni if n + SUF in rank]
     if op == "roundtrip":
@@ -844,6 +843,8 @@ def request(case):
         return C.enc(["latent", "simplify", _enc_lv(case["d"], rank), primes])
     if op == "from_lv":
         return C.enc(["latent", "from_lv", _enc_lv(case["d"], rank)])
+    if op == "design":
+        return C.enc(["latent", "design", _enc_lv(case["d"], rank), primes, rank[case["cause"]], rank[case["effect"]]])
     if op == "evans":
         fresh = [rank[f"u_{i}"] for i in range(len(case["g"]["bi"]) + len(G.all_nodes(case["g"])) + 1)]
         return C.enc(["latent", "evans", _enc_graph(case["g"], rank), [rank[x] for x in case.get("extra", [])], fresh, primes])
@@ -868,6 +869,8 @@ def canon_model(case, rep):
     uni, _ = table(case)
     op = case["op"]
     body = rep[1]
+    if op == "design":
+        return ["ok", str(body[0]), int(body[1]), int(body[2]), int(body[3]), int(body[4])]
     if op == "roundtrip":
         return ["ok", _dec_lv(body[0], uni), _dec_graph(body[1], uni)]
     if op == "simplify":
@@ -910,7 +913,7 @@ def finding_key(case, res):
 
 
 MANIFEST = {
-    "text": ("Proof: 43 Lean theorems about the executable model of graph.py (_latent_dag / to_latent_variable_dag / "
+    "text": ("Proof: 46 Lean theorems about the executable model of graph.py (_latent_dag / to_latent_variable_dag / "
              "from_latent_variable_dag) and simplify_latent.py (four rules, simplify_latent_dag, evans_simplify), for ALL "
              "well-formed inputs, no size bound. Round trip: from(to(G)) == G for every mixed graph incl. edge-less nodes "
              "and nodes already called u_i (roundtrip, toLV_is_projection). Simplification of any well-formed acyclic LV-DAG "
@@ -930,7 +933,10 @@ MANIFEST = {
              "verdict of the ID model of C02 does not depend on insertion order nor on the topological orders networkx returns "
              "(id_verdict_equiv_congr, by induction along the ID recursion), hence is the same on the graph read off the "
              "simplified DAG and on any latent projection of the original (simplify_id_verdict, evans_id_verdict, "
-             "evans_id_verdict_latents). verdict_invariant: the same for every function of the graph respecting __eq__."),
+             "evans_id_verdict_latents). verdict_invariant: the same for every function of the graph respecting __eq__. "
+             "Consumer taheri_design._get_result: never raises for observed cause != effect, reports the counts of the input "
+             "and the simplified DAG, returns the latent projection of the input, and its verdict is ID's verdict on any "
+             "latent projection of the input (design_result, design_keyError)."),
     "note": ("Trusted: Lean kernel; axioms propext/Classical.choice/Quot.sound; Spec/LatentSpec.lean (definition of latent "
              "projection, WF, Acyclic); the hand-written model tied to the code by differential sampling on every run "
              "(networkx DiGraph/topological_sort behaviour under mutation is modelled); Python string order of names is "
